@@ -43,6 +43,8 @@ Clauses(in, out) ==
      <<"BaseLoadWithinObservedUsage", ok => All(out, LAMBDA c : c.baseInRange)>>,
      <<"UncertaintyFiniteNonNegative", ok => All(out, LAMBDA c : c.funcOk)>>,
      <<"TemperatureLimitsAreThoseOfTheFittedDays", ok => All(out, LAMBDA c : c.limitsOk)>>,
+     \* "the fitted days" are days of the baseline that was handed to THIS fit (not of one the object was fitted on before)
+     <<"FittedDaysAreDaysOfTheGivenBaseline", ok => All(out, LAMBDA c : c.ownData)>>,
      <<"TemperatureLimitsRecorded", TRUE>> >>
   \o [p \in 1..Len(CurveCells) |->
         <<"StoredCoefficientsDescribeTheScoredCurve_" \o CurveCells[p][1] \o "_" \o CurveCells[p][2],
